@@ -133,6 +133,20 @@ def run(ctx):
                "every origin is the empty list created in %s; all hops are "
                "plain bindings (%d leaves)" % (sorted(displays), len(leaves)),
                loc=m.loc(lr, args[0]))
+    # ... and the matchers of nested sections append to that same list, in
+    # the order the sections are closed
+    crosscheck(ctx, "C16.R5", MT + ".BaseMatcher.createChildMatcher", REF,
+               "createChildMatcher", MT + ".BaseMatcher",
+               "the child matcher is given this matcher's handler list")
+    crosscheck(ctx, "C16.R5", MT + ".BaseMatcher.__init__", REF,
+               "basematcher_init", MT + ".BaseMatcher",
+               "the given list is kept by reference; a new one only when "
+               "none is given")
+    crosscheck(ctx, "C16.R4", MT + ".BaseMatcher.finish", REF, "finish",
+               MT + ".BaseMatcher",
+               "closing a section moves no handler entries: they are "
+               "appended by constuct only, after the entries of the sections "
+               "closed before")
     # no default-argument list
     bi = m.fn(MT + ".BaseMatcher.__init__")
     for d in bi.node.args.defaults:
@@ -145,6 +159,38 @@ def run(ctx):
     crosscheck(ctx, "C16.R6", "ZConfig.schema.BaseParser.get_handler",
                "ref_schema.py", "get_handler", "ZConfig.schema.BaseParser",
                "handler names are stored after basic-key conversion")
+    # every item kind takes its handler name through get_handler: no other
+    # function of the schema parser reads the 'handler' attribute itself
+    BPq = "ZConfig.schema.BaseParser"
+    raw = []
+    for fi in m.functions.values():
+        if fi.module.name != "ZConfig.schema" or fi.name == "get_handler":
+            continue
+        for n in walk_shallow(fi.node):
+            k = None
+            if isinstance(n, ast.Subscript) and isinstance(
+                    n.slice, ast.Constant):
+                k = n.slice.value
+            elif isinstance(n, ast.Call) and isinstance(
+                    n.func, ast.Attribute) and n.func.attr in (
+                        "get", "pop") and n.args and isinstance(
+                        n.args[0], ast.Constant):
+                k = n.args[0].value
+            if k == "handler":
+                raw.append((fi, n))
+    for fi, n in raw:
+        run.fail("C16.R6", fi.qualname, src(n),
+                 "the 'handler' attribute is read without get_handler: the "
+                 "name is stored as written, while the names given to the "
+                 "composite handler are matched after basic-key conversion",
+                 loc=m.loc(fi, n))
+    if not raw:
+        run.ok("C16.R6", "ZConfig.schema", "raw reads of 'handler'",
+               "only get_handler reads the attribute", nontrivial=False)
+    for name in ("start_key", "start_multikey", "start_section",
+                 "start_multisection"):
+        crosscheck(ctx, "C16.R6", BPq + "." + name, "ref_schema.py", name,
+                   BPq, "the item's handler is get_handler(attrs)")
     crosscheck(ctx, "C16.R6", "ZConfig.schema.BaseParser.basic_key",
                "ref_schema.py", "basic_key", "ZConfig.schema.BaseParser",
                "basic-key wrapper")
